@@ -1,3 +1,4 @@
+mod daemon;
 mod fakecli;
 mod frame;
 mod memtransport;
@@ -35,6 +36,7 @@ fn main() {
     match op.as_str() {
         "frame" => frame::main(&opts),
         "reply" => reply::main(&opts),
+        "daemon" => daemon::main(&opts),
         _ => {
             eprintln!("unknown op {op}");
             std::process::exit(2);
